@@ -38,11 +38,17 @@ def _const_keys_of_subscript(node: ast.AST, loop_consts: Dict[str, List[str]]) -
     return []
 
 
+_MODULE_SEQ_CONSTS: Dict[str, ast.AST] = {}
+
+
 def _loop_consts(fn_node: ast.AST) -> Dict[str, List[str]]:
     out: Dict[str, List[str]] = {}
     for n in own_nodes(fn_node):
-        if isinstance(n, ast.For) and isinstance(n.target, ast.Name) and isinstance(n.iter, (ast.Tuple, ast.List)):
-            vals = [const_str(e) for e in n.iter.elts]
+        it = n.iter if isinstance(n, ast.For) else None
+        if isinstance(it, ast.Name) and it.id in _MODULE_SEQ_CONSTS:
+            it = _MODULE_SEQ_CONSTS[it.id]  # a module-level tuple / list constant of the transport module (`_AUTH_FORWARDED_KEYS`)
+        if isinstance(n, ast.For) and isinstance(n.target, ast.Name) and isinstance(it, (ast.Tuple, ast.List)):
+            vals = [const_str(e) for e in it.elts]
             if all(v is not None for v in vals):
                 out[n.target.id] = vals  # type: ignore[assignment]
     return out
@@ -90,16 +96,38 @@ def _set_header_helper(repo: Repo):
     body = [st for st in fn.node.body if not (isinstance(st, ast.Expr) and isinstance(st.value, ast.Constant))]  # type: ignore[attr-defined]
     if not body or not (isinstance(body[-1], ast.Assign) and norm(body[-1].targets[0]) == f"{h}[{n}]" and norm(body[-1].value) == v):
         return fn, f"does not end in `{h}[{n}] = {v}`"
+    def _ci(c: ast.AST) -> bool:
+        return isinstance(c, ast.Compare) and len(c.ops) == 1 and isinstance(c.ops[0], ast.Eq) and all(
+            isinstance(s_, ast.Call) and isinstance(s_.func, ast.Attribute) and s_.func.attr in ("lower", "casefold", "upper") for s_ in (c.left, c.comparators[0])) and n in norm(c)
+
+    collected: Set[str] = set()  # locals that hold exactly the keys equal to `name` ignoring case
     for st in body[:-1]:
+        if isinstance(st, (ast.Assign, ast.AnnAssign)) and isinstance(getattr(st, "value", None), (ast.List, ast.ListComp, ast.Call)):
+            tg = st.targets[0] if isinstance(st, ast.Assign) else st.target
+            v_ = st.value
+            if isinstance(tg, ast.Name) and isinstance(v_, ast.List) and not v_.elts:
+                collected.add(tg.id)
+                continue
+            if isinstance(tg, ast.Name) and isinstance(v_, ast.ListComp) and any(_ci(c) for g in v_.generators for c in g.ifs):
+                collected.add(tg.id)
+                continue
+            return fn, f"`{norm(st)[:50]}` is neither the removal loop nor the store"
         if not isinstance(st, ast.For):
             return fn, f"`{norm(st)[:50]}` is neither the removal loop nor the store"
+        dels = [x for x in ast.walk(st) if isinstance(x, ast.Delete)]
+        if not dels:
+            # the collecting loop: `for k in headers: if k.lower() == name.lower(): <collected>.append(k)`
+            apps = [c for c in calls_in(st) if isinstance(c.func, ast.Attribute) and c.func.attr == "append" and isinstance(c.func.value, ast.Name) and c.func.value.id in collected]
+            guarded_ = all(isinstance(b, ast.If) and _ci(b.test) and not b.orelse for b in st.body)
+            other = [x for b in st.body for x in ast.walk(b) if isinstance(x, (ast.Assign, ast.AugAssign, ast.Delete))]
+            if apps and guarded_ and not other and norm(st.iter) in (h, f"{h}.keys()", f"list({h})"):
+                continue
+            return fn, "a loop in front of the store neither collects nor removes the other spellings"
         it = st.iter
         conds = [c for x in ast.walk(it) if isinstance(x, (ast.ListComp, ast.GeneratorExp, ast.SetComp)) for g in x.generators for c in g.ifs]
-        ci = any(isinstance(c, ast.Compare) and len(c.ops) == 1 and isinstance(c.ops[0], ast.Eq) and all(
-            isinstance(s_, ast.Call) and isinstance(s_.func, ast.Attribute) and s_.func.attr in ("lower", "casefold", "upper") for s_ in (c.left, c.comparators[0])) and n in norm(c) for c in conds)
-        dels = [x for x in ast.walk(st) if isinstance(x, ast.Delete)]
+        ci = any(_ci(c) for c in conds) or (isinstance(it, ast.Name) and it.id in collected)
         others = [x for b in st.body for x in ast.walk(b) if isinstance(x, (ast.Assign, ast.AugAssign, ast.Call)) and not isinstance(b, ast.Delete)]
-        if not ci or not dels or others or not all(norm(t).startswith(f"{h}[") for d in dels for t in d.targets):
+        if not ci or others or not all(norm(t).startswith(f"{h}[") for d in dels for t in d.targets):
             return fn, "removes other keys than the ones equal to the name ignoring case"
     return fn, None
 
@@ -109,6 +137,15 @@ def _desugar_header_writes(repo: Repo, rep=None) -> None:
     other spellings of the name.  Once the helper is verified (R17.9) the rules read such calls as the plain writes they looked for before:
     `set_header(D, n, v)` as `D[n] = v`, and `for a, b in S.items(): set_header(D, a, f(b))` as `D.update({a: f(b) for a, b in S.items()})`.
     The syntax trees of the transport and plugin modules are rewritten in place, once per run (analysis only)."""
+    for mn_ in ("core.http_transport", "core.auth.plugins", "core.auth.base"):
+        try:
+            for st_ in repo.module(mn_).tree.body:
+                if isinstance(st_, (ast.Assign, ast.AnnAssign)) and isinstance(getattr(st_, "value", None), (ast.Tuple, ast.List)):
+                    tg_ = st_.targets[0] if isinstance(st_, ast.Assign) else st_.target
+                    if isinstance(tg_, ast.Name):
+                        _MODULE_SEQ_CONSTS[tg_.id] = st_.value
+        except AnalysisError:
+            pass
     if getattr(repo, "_c17_desugared", False):
         return
     repo._c17_desugared = True  # type: ignore[attr-defined]
@@ -890,6 +927,16 @@ def _apikey_rules(cls: Class, rep: Report) -> None:
                     tail = list(cs.body)
             if chain_head is not None:
                 m.node.body[mi] = tail[0] if tail else chain_head  # type: ignore[attr-defined]
+    # guard-clause form: `if self.location == "header": ...; return x` / `if ... "query": ...; return x` / ... / `raise ValueError` is the same switch:
+    # rewritten as the equivalent if/elif/else chain (analysis only)
+    body_ = m.node.body  # type: ignore[attr-defined]
+    ifs_ = [i_ for i_, st_ in enumerate(body_) if isinstance(st_, ast.If) and not st_.orelse and st_.body and isinstance(st_.body[-1], (ast.Return, ast.Raise)) and _explicit_switch(st_.test)]
+    if len(ifs_) >= 2 and ifs_ == list(range(ifs_[0], ifs_[0] + len(ifs_))):
+        rest_ = body_[ifs_[-1] + 1:]
+        for a_, b_ in zip(ifs_, ifs_[1:]):
+            body_[a_].orelse = [body_[b_]]
+        body_[ifs_[-1]].orelse = list(rest_)
+        del body_[ifs_[0] + 1:]
     top = [s for s in m.node.body if isinstance(s, ast.If)]  # type: ignore[attr-defined]
     chain = top[0] if top else None
     last_else: List[ast.stmt] = []
